@@ -42,6 +42,9 @@ CLAIMED = {
     "C10": dict(level="model_checking", ref="4/C10", technique="TLA+ trace validation of Exp::simplify/flatten on TLC-enumerated trees (RewriteTrace: value equality on all small assignments, idempotence, kept denominators) and of respelled twin models through the text front end (LinTrace predicates + equal acceptance)",
                 text="All trees of depth <= 1 and the depth-2 family of ExprGen.tla are rewritten by the real code and compared by value with the specification's Eval at every small assignment; twins of corpus-K models in other constant spellings must be accepted together and both satisfy the projection/objective predicates against the first spelling's source model.",
                 note="logic operand positions hold logic-typed trees; twin texts are rendered by the driver"),
+    "C11": dict(level="model_checking", ref="4/C11", technique="TLA+ trace validation (FormatTrace: idempotence, equal compiled models, value of the formatted expression vs Pratt!Parse of the original tokens) of RoocParser::format on TLC-enumerated expression strings and a program corpus",
+                text="Every expression string TokGen enumerates up to 5 tokens (all parenthesised and implicit-product shapes) plus operator triples and simulated longer strings, and hand-written programs covering blocks, iterations, graphs, indexed/escaped names and all declaration forms, are formatted by the real formatter, formatted again, and compiled before and after; FormatTrace.tla decides parse-ability, idempotence and model equality.",
+                note="programs beyond expressions are a fixed hand-written corpus (17 programs); model equality is record equality of the serialised Model"),
 }
 NOT_YET = {}
 ALL = [f"C{i:02d}" for i in range(1, 21)]
